@@ -16,6 +16,13 @@ structure St where
   m : Require.St := {}                    -- Model state
   sp : Require.St := {}                   -- Spec state
   cache : List (Name × String) := []      -- monitor: module ↦ token of the truthy value it is known to hold
+  -- the searcher chains. Model: the content of registry._LOADERS (the table OpenPackage created; loRequire reads
+  -- nothing else). Spec: the content of the table the field package.loaders holds NOW (`sChain`) and of the table
+  -- it held originally (`sOrig`); `detached`: a script assigned another table to package.loaders.
+  mChain : List Searcher := Model.loLoaders
+  sChain : List Searcher := Spec.stdLoaders
+  sOrig : List Searcher := Spec.stdLoaders
+  detached : Bool := false
 
 def fuel : Nat := 64
 
@@ -32,11 +39,12 @@ def showErr : RErr → String
   | .loop n => "E:loop:" ++ n
   | .notFound n tried => "E:notfound:" ++ n ++ ":" ++ ",".intercalate tried
   | .raised n => "E:raised:" ++ n
+  | .loadErr p => "E:loaderr:" ++ p
   | .conflict n => "E:conflict:" ++ n
   | .fuel => "E:fuel"
 
 def showSrc : Src → String
-  | .file => "F" | .lua => "P" | .go => "G"
+  | .file => "F" | .lua => "P" | .go => "G" | .searcher => "S"
 
 def showEv : Ev → String
   | .run src key arg => showSrc src ++ ":" ++ key ++ ":" ++ arg
@@ -71,7 +79,7 @@ def globalLookup (s : Require.St) (n : Name) : LV :=
 def parseFinal : String → Option Final
   | "ret" => some .ret | "none" => some .none | "retfalse" => some .retFalse | "set" => some .set
   | "setret" => some .setRet | "setnil" => some .setNil | "setnilret" => some .setNilRet
-  | "raise" => some .raise | "mod" => some .module | "setmod" => some .setMod | _ => none
+  | "raise" => some .raise | "setraise" => some .setRaise | "mod" => some .module | "setmod" => some .setMod | _ => none
 
 def parseStep (s : String) : Option Step :=
   match s.splitOn ":" with
@@ -86,6 +94,35 @@ def parseBeh (s : String) : Option Beh :=
     | some f, some steps => some { steps := steps, final := f }
     | _, _ => none
   | _ => none
+
+/-- a searcher token: P / L = the library's preload / path searcher (the original function values), N = a Lua
+    function answering nil, M:tag = one answering the string "tag", C:who:beh = one answering a loader for `who`. -/
+def parseSearcher (t : String) : Option Searcher :=
+  match t.splitOn ":" with
+  | ["P"] => some .preload
+  | ["L"] => some .lua
+  | ["N"] => some .silent
+  | ["M", tag] => some (.says tag)
+  | "C" :: who :: rest => (parseBeh (":".intercalate rest)).map (.finder who ·)
+  | _ => none
+
+def parseChain (t : String) : Option (List Searcher) :=
+  if t = "-" then some [] else (t.splitOn "/").mapM parseSearcher
+
+def parseNames (t : String) : List Name := if t = "-" then [] else t.splitOn ","
+
+/-- table.insert(t, pos, x) / table.remove(t, pos) / t[1], t[2] = t[2], t[1] on an array -/
+def chainIns (l : List Searcher) (pos : Nat) (x : Searcher) : List Searcher := l.take (pos - 1) ++ [x] ++ l.drop (pos - 1)
+def chainRm (l : List Searcher) (pos : Nat) : List Searcher := l.eraseIdx (pos - 1)
+def chainSwap : List Searcher → List Searcher
+  | a :: b :: r => b :: a :: r
+  | l => l
+
+/-- a change made IN PLACE to the table package.loaders holds: it reaches the registry's table only while that
+    is the same table. -/
+def inPlace (st : St) (f : List Searcher → List Searcher) : St :=
+  if st.detached then { st with sChain := f st.sChain }
+  else { st with sChain := f st.sChain, sOrig := f st.sOrig, mChain := f st.mChain }
 
 /-- apply a state-only op to both states -/
 def both (st : St) (f : Require.St → Require.St) : St := { st with m := f st.m, sp := f st.sp }
@@ -103,7 +140,7 @@ def monitor (c : List (Name × String)) (n : Name) (impl : List String) : Option
     let (bad, c) := acc
     match tok.splitOn ":" with
     | [k, _, arg] =>
-      if k = "F" ∨ k = "P" ∨ k = "G" then
+      if k = "F" ∨ k = "P" ∨ k = "G" ∨ k = "S" then
         (if (cacheGet c arg).isSome ∧ bad.isNone then some ("loader of cached module " ++ arg ++ " ran again") else bad, c)
       else (bad, c)
     | ["N", rest] =>
@@ -143,9 +180,22 @@ def handle (st : St) (ws : List String) : St × Verdict :=
   | ["path", p] => (both st (fun s => { s with path := p }), ok)
   | ["file", p, b] =>
     match parseBeh b with
-    | some b => (both st (fun s => { s with files := upd s.files p (some b) }), ok)
+    | some b => (both st (fun s => s.writeFile p b), ok)
     | none => (st, { model := some "bad-beh" })
-  | ["rmfile", p] => (both st (fun s => { s with files := upd s.files p none }), ok)
+  | ["badfile", p, _] => (both st (fun s => s.writeBad p), ok)
+  | ["rmfile", p] => (both st (fun s => s.removeFile p), ok)
+  | ["newpreload", keep] => (both st (fun s => s.newPreload (parseNames keep)), ok)
+  | ["ldswap"] => (inPlace st chainSwap, ok)
+  | ["ldrm", pos] => (inPlace st (chainRm · pos.toNat!), ok)
+  | ["ldins", pos, tok] =>
+    match parseSearcher tok with
+    | some x => (inPlace st (chainIns · pos.toNat! x), ok)
+    | none => (st, { model := some "bad-searcher" })
+  | ["ldnew", toks] =>
+    match parseChain toks with
+    | some c => ({ st with sChain := c, detached := true }, ok)
+    | none => (st, { model := some "bad-searcher" })
+  | ["ldrestore"] => ({ st with sChain := st.sOrig, detached := false }, ok)
   | ["preload", n, b] =>
     match parseBeh b with
     | some b => (both st (fun s => { s with preload := upd s.preload n (some { src := .lua, key := n, beh := b }) }), ok)
@@ -159,14 +209,19 @@ def handle (st : St) (ws : List String) : St × Verdict :=
   | ["gtrue", n] => (both st (fun s => s.heapSet 0 n (.bool true)), ok)
   | ["clear", n] => ({ both st (fun s => s.setLoaded n .nil) with cache := cacheDel st.cache n }, ok)
   | ["require", n] =>
-    let rm := Model.loRequire fuel st.m n
-    let rs := Spec.require .assigned fuel st.sp n
+    let rm := Model.loRequireL st.mChain fuel st.m n
+    let rs := Spec.requireL .assigned st.sChain fuel st.sp n
     let em := showRequire st.m rm
     let es := showRequire st.sp rs
     let (mon, c') := monitor st.cache n impl
-    let spec := if got ≠ es then some ("require " ++ n ++ " spec=" ++ es)
+    -- known finding C20-loaders-replaced: a table ASSIGNED to package.loaders is what the reference iterates over,
+    -- gopher-lua keeps iterating over the table in the registry. Recognised only when the Model reproduces the
+    -- implementation and the two chains really differ; the Spec then continues from the implementation's state.
+    let kf := got ≠ es ∧ got = em ∧ st.detached ∧ st.sChain ≠ st.mChain
+    let spec := if kf then some ("KF:C20-loaders-replaced require " ++ n ++ " spec=" ++ es)
+                else if got ≠ es then some ("require " ++ n ++ " spec=" ++ es)
                 else mon.map ("monitor: " ++ ·)
-    ({ m := rm.1, sp := rs.1, cache := c' }, { model := cmpModel em impl, spec := spec })
+    ({ st with m := rm.1, sp := if kf then rm.1 else rs.1, cache := c' }, { model := cmpModel em impl, spec := spec })
   | ["register", n, f] =>
     let rm := Model.registerModule st.m n [f]
     let rs := Spec.register st.sp n [f]
@@ -180,7 +235,7 @@ def handle (st : St) (ws : List String) : St × Verdict :=
       | "ok" :: _ => if impl.contains (f ++ "=fn") then none else some ("registered function " ++ f ++ " is not in the module table")
       | _ => none
     let spec := if got ≠ es then some ("register " ++ n ++ " spec=" ++ es) else reach
-    ({ m := rm.1, sp := rs.1, cache := c' }, { model := cmpModel em impl, spec := spec })
+    ({ st with m := rm.1, sp := rs.1, cache := c' }, { model := cmpModel em impl, spec := spec })
   | ["global", n] =>
     let em := showLV (globalLookup st.m n)
     let es := showLV (globalLookup st.sp n)
